@@ -95,6 +95,20 @@ func (p *Program) normaliseOnce(known map[string]bool, round int) (map[string][]
 	}
 	edits := map[string][]textEdit{}
 	var notes []string
+	// single-expression local closures of functions outside the vocabulary are
+	// folded into their call sites first; such a function is inlined into its
+	// callers in a later round, once its text no longer contains them
+	for _, fs := range p.allSrc {
+		if fs.Decl == nil || fs.Obj == nil || known[fs.Name] {
+			continue
+		}
+		if ed, n := p.inlineLocalClosures(fs, read); len(ed) > 0 {
+			fname := p.Fset.File(fs.Decl.Pos()).Name()
+			edits[fname] = append(edits[fname], ed...)
+			delete(cands, fs.Obj)
+			notes = append(notes, fmt.Sprintf("%d call(s) of single-expression local functions of %s folded into their call sites", n, fs.Name))
+		}
+	}
 	seq := 0
 	// deterministic order
 	var sites []*CallSite
@@ -1307,4 +1321,217 @@ func inlFail() ([]textEdit, ast.Node, bool) {
 		fmt.Fprintf(os.Stderr, "normalise: not inlined (normalise.go:%d)\n", line)
 	}
 	return nil, nil, false
+}
+
+// inlineLocalClosures: `v := func(a A) R { return E }` bound once to a local
+// of fs, used only by calling it: every `v(x)` becomes E with x for a, and the
+// definition disappears.  E is evaluated where the call was, with the same
+// variables in scope (checked), so nothing observable changes.
+func (p *Program) inlineLocalClosures(fs *FuncSrc, read func(string) []byte) ([]textEdit, int) {
+	info := fs.Pkg.TypesInfo
+	file := p.Fset.File(fs.Decl.Pos())
+	if file == nil {
+		return nil, 0
+	}
+	src := read(file.Name())
+	if src == nil {
+		return nil, 0
+	}
+	off := func(pos token.Pos) int { return file.Offset(pos) }
+	okQ := true
+	qual := qualifierFor(fs.Pkg.Types, fs.File, info, &okQ)
+	var out []textEdit
+	ncalls := 0
+	ast.Inspect(fs.Decl.Body, func(n ast.Node) bool {
+		as, ok := n.(*ast.AssignStmt)
+		if !ok || as.Tok != token.DEFINE || len(as.Lhs) != 1 || len(as.Rhs) != 1 {
+			return true
+		}
+		id, ok := as.Lhs[0].(*ast.Ident)
+		lit, ok2 := as.Rhs[0].(*ast.FuncLit)
+		if !ok || !ok2 || id.Name == "_" {
+			return true
+		}
+		vobj := info.Defs[id]
+		if vobj == nil || lit.Type.Results == nil || len(lit.Type.Results.List) != 1 || len(lit.Type.Results.List[0].Names) != 0 || len(lit.Body.List) != 1 {
+			return true
+		}
+		ret, ok := lit.Body.List[0].(*ast.ReturnStmt)
+		if !ok || len(ret.Results) != 1 {
+			return true
+		}
+		E := ret.Results[0]
+		etext := string(src[off(E.Pos()):off(E.End())])
+		if strings.Contains(etext, "//") || strings.Contains(etext, "/*") {
+			return true
+		}
+		hasLit := false
+		ast.Inspect(E, func(m ast.Node) bool {
+			if _, isLit := m.(*ast.FuncLit); isLit {
+				hasLit = true
+			}
+			return true
+		})
+		if hasLit {
+			return true
+		}
+		var params []*types.Var
+		for _, fld := range lit.Type.Params.List {
+			if len(fld.Names) == 0 {
+				return true
+			}
+			if _, variadic := fld.Type.(*ast.Ellipsis); variadic {
+				return true
+			}
+			for _, nm := range fld.Names {
+				v, _ := info.Defs[nm].(*types.Var)
+				if v == nil {
+					return true
+				}
+				params = append(params, v)
+			}
+		}
+		uses := map[*types.Var]int{}
+		var free []*ast.Ident
+		selOf := map[*ast.Ident]bool{}
+		ast.Inspect(E, func(m ast.Node) bool {
+			if se, isSel := m.(*ast.SelectorExpr); isSel {
+				selOf[se.Sel] = true
+			}
+			if kv, isKV := m.(*ast.KeyValueExpr); isKV {
+				if k, isId := kv.Key.(*ast.Ident); isId {
+					if v, _ := info.Uses[k].(*types.Var); v != nil && v.IsField() {
+						selOf[k] = true
+					}
+				}
+			}
+			return true
+		})
+		ast.Inspect(E, func(m ast.Node) bool {
+			if x, isId := m.(*ast.Ident); isId && !selOf[x] {
+				if v, _ := info.Uses[x].(*types.Var); v != nil {
+					isParam := false
+					for _, q := range params {
+						if q == v {
+							isParam = true
+						}
+					}
+					if isParam {
+						uses[v]++
+					} else if !v.IsField() {
+						free = append(free, x)
+					}
+				} else if o := info.Uses[x]; o != nil {
+					if _, isPkg := o.(*types.PkgName); !isPkg && o.Parent() != types.Universe {
+						free = append(free, x)
+					}
+				}
+			}
+			return true
+		})
+		// every use of v is a call v(args)
+		var calls []*ast.CallExpr
+		okUses := true
+		ast.Inspect(fs.Decl.Body, func(m ast.Node) bool {
+			if call, isCall := m.(*ast.CallExpr); isCall {
+				if fid, isId := unparen(call.Fun).(*ast.Ident); isId && info.Uses[fid] == vobj {
+					if len(call.Args) != len(params) || call.Ellipsis.IsValid() {
+						okUses = false
+					}
+					calls = append(calls, call)
+				}
+			}
+			return true
+		})
+		nuse := 0
+		ast.Inspect(fs.Decl.Body, func(m ast.Node) bool {
+			if x, isId := m.(*ast.Ident); isId && info.Uses[x] == vobj {
+				nuse++
+			}
+			return true
+		})
+		if !okUses || nuse != len(calls) || len(calls) == 0 {
+			return true
+		}
+		rt := info.TypeOf(lit).(*types.Signature).Results().At(0).Type()
+		var eds []textEdit
+		for _, call := range calls {
+			// the free names of E mean the same at the call
+			inner := fs.Pkg.Types.Scope().Innermost(call.Pos())
+			for _, fid := range free {
+				if inner == nil {
+					return true
+				}
+				if _, o := inner.LookupParent(fid.Name, call.Pos()); o != info.Uses[fid] {
+					return true
+				}
+			}
+			var pe []textEdit
+			bad := false
+			for i, q := range params {
+				a := call.Args[i]
+				if !simpleExpr(a) || (uses[q] > 1 && !accessPath(a)) {
+					if tv := info.Types[a]; tv.Value == nil {
+						bad = true
+					}
+				}
+			}
+			if bad {
+				return true
+			}
+			ast.Inspect(E, func(m ast.Node) bool {
+				if x, isId := m.(*ast.Ident); isId {
+					if v, _ := info.Uses[x].(*types.Var); v != nil {
+						for i, q := range params {
+							if q == v {
+								a := call.Args[i]
+								pe = append(pe, textEdit{off(x.Pos()), off(x.End()), "(" + strings.ReplaceAll(string(src[off(a.Pos()):off(a.End())]), "\n", " ") + ")"})
+							}
+						}
+					}
+				}
+				return true
+			})
+			sort.Slice(pe, func(i, j int) bool { return pe[i].start > pe[j].start })
+			base := off(E.Pos())
+			b := append([]byte(nil), src[base:off(E.End())]...)
+			for _, e := range pe {
+				b = append(b[:e.start-base], append([]byte(e.text), b[e.end-base:]...)...)
+			}
+			text := "(" + strings.ReplaceAll(string(b), "\n", " ") + ")"
+			if tv := info.Types[E]; tv.Value != nil || !types.Identical(tv.Type, rt) {
+				ts := types.TypeString(rt, qual)
+				if !okQ {
+					return true
+				}
+				if strings.ContainsAny(ts, "*[ (") {
+					ts = "(" + ts + ")"
+				}
+				text = ts + text
+			}
+			eds = append(eds, textEdit{off(call.Pos()), off(call.End()), text})
+		}
+		// calls nested in one another would overlap
+		for i := range eds {
+			for j := range eds {
+				if i != j && eds[i].start < eds[j].end && eds[j].start < eds[i].end {
+					return true
+				}
+			}
+		}
+		for _, e := range eds {
+			for _, o := range out {
+				if e.start < o.end && o.start < e.end {
+					return true
+				}
+			}
+		}
+		// the definition goes (its lines stay)
+		ds, de := off(as.Pos()), off(as.End())
+		eds = append(eds, textEdit{ds, de, strings.Repeat("\n", strings.Count(string(src[ds:de]), "\n"))})
+		out = append(out, eds...)
+		ncalls += len(calls)
+		return false
+	})
+	return out, ncalls
 }
